@@ -802,4 +802,5 @@ func Run(c *hx.Ctx) {
 	snapshotCases(c)
 	concurrent(c)
 	hopsCases(c)
+	plkCases(c)
 }
